@@ -184,7 +184,13 @@ func ParseRequest(ctx context.Context, lmd *Daemon, c net.Conn) (req *Request, e
 // ParseRequests reads from a connection and returns all requests read.
 // It returns a list of requests and any errors encountered.
 func ParseRequests(ctx context.Context, lmd *Daemon, c net.Conn) (reqs []*Request, err error) {
-	b := bufio.NewReader(c)
+	return parseRequestsFromReader(ctx, lmd, c, bufio.NewReader(c))
+}
+
+// parseRequestsFromReader reads from the buffered reader of a connection and returns all requests read.
+// Keepalive connections must use the same reader for all requests, otherwise requests which have been
+// buffered already would get lost.
+func parseRequestsFromReader(ctx context.Context, lmd *Daemon, c net.Conn, b *bufio.Reader) (reqs []*Request, err error) {
 	localAddr := c.LocalAddr().String()
 	eof := false
 	for {
